@@ -65,7 +65,7 @@ func (configuration *Configuration) Unmarshal(b []byte) error {
 
 			individualConfigurationAttribute := new(IndividualConfigurationAttribute)
 
-			individualConfigurationAttribute.Type = binary.BigEndian.Uint16(configurationAttributeData[0:2])
+			individualConfigurationAttribute.Type = binary.BigEndian.Uint16(configurationAttributeData[0:2]) & 0x7fff
 			configurationAttributeData = configurationAttributeData[4:]
 			individualConfigurationAttribute.Value = append(
 				individualConfigurationAttribute.Value,
